@@ -159,6 +159,22 @@ def _check(pid, P, tier, seed, bdir, ev):
         fns = meta['fn_lines']
         clauses = meta['clause_lines']
         failures, compile_errors = VR.classify(r, unit_path, fns, clauses)
+        # second opinion: an obligation of a repo function that fails is re-checked once with the ring/module laws of T3 available as
+        # quantified facts (lemmas/vspec.rs use_ac: instances of the axioms only, so a false obligation cannot pass).  A body that computes the
+        # same value with the operands in another order is then not reported merely because the first attempt has no AC reasoning.
+        vf = [x for x in failures if x.verdict and x.fn_key]
+        if vf and not compile_errors and r.json is not None:
+            so = second_opinion(uname, unit_path, meta, sorted(set(x.fn_key for x in vf)), P)
+            cov.setdefault('second_opinion', {})[uname] = so
+            cleared = set(k for k, v in so.items() if v.get('verified'))
+            if cleared:
+                failures = [x for x in failures if x.fn_key not in cleared]
+                for k in cleared:
+                    st0 = r.fn_status.get(VR.resolve_name(r, [f for f in meta['functions'] if f['key'] == k][0]['verus_name']))
+                    if st0:
+                        st0['success'] = True
+                if not failures and r.rc == 1:
+                    r.rc = 0
         if r.json is None or compile_errors or r.rc not in (0, 1) or (r.rc != 0 and not failures and r.errors == 0):
             msg = '; '.join((d.get('message') or '')[:160] for d in compile_errors[:3]) or ('verus rc=%s, no verdict' % r.rc)
             loc = ''
@@ -453,6 +469,38 @@ def scan_suite_overrides():
             problems.append('%s: `impl Ciphersuite` defines %s%s -- the default-world assumption (or the Taproot unit) was written for another set of overrides'
                             % (crate, ('additionally ' + ', '.join(extra)) if extra else '', (' and no longer ' + ', '.join(missing)) if missing else ''))
     return problems, seen
+
+
+def second_opinion(uname, unit_path, meta, keys, P):
+    cfg = load_unit_cfg(uname)
+    cfg['crate_name'] = 'unit'
+    cfg['second_opinion'] = True
+    out = {}
+    try:
+        text, m2 = EX.build_unit(cfg)
+    except Exception as e:
+        return {k: dict(verified=False, note='extraction failed: %s' % e) for k in keys}
+    d = os.path.join(os.path.dirname(unit_path), 'second_opinion')
+    os.makedirs(d, exist_ok=True)
+    p2 = os.path.join(d, 'unit.rs')
+    open(p2, 'w').write(text)
+    byk = {f['key']: f for f in m2['functions']}
+    for k in keys[:6]:
+        f = byk.get(k)
+        if not f or 'fn_pattern' not in f:
+            out[k] = dict(verified=False, note='no pattern')
+            continue
+        sel = (['--verify-only-module', f['modpath']] if f.get('modpath') else ['--verify-root']) + ['--verify-function', f['fn_pattern']]
+        cmd = [VR.VERUS, 'unit.rs', '--output-json', '--rlimit', '20'] + sel
+        try:
+            pr = subprocess.run(cmd, cwd=d, capture_output=True, text=True, timeout=240)
+            js = json.loads(pr.stdout[pr.stdout.index('{'):]) if '{' in pr.stdout else {}
+            vr = js.get('verification-results', {})
+            ok = pr.returncode == 0 and vr.get('errors', 1) == 0 and vr.get('verified', 0) >= 1
+            out[k] = dict(verified=bool(ok), cmd=' '.join(cmd), verified_items=vr.get('verified'), errors=vr.get('errors'))
+        except Exception as e:
+            out[k] = dict(verified=False, note=str(e)[:200])
+    return out
 
 
 def concrete_fallback(pid, seed, ev, undecided):
